@@ -14,3 +14,5 @@ func verifWrapConn(s *Server, client *Client, conn net.Conn) net.Conn { return c
 func verifCmdBegin(s *Server, client *Client, msg *Message) int { return 0 }
 
 func verifCmdDone(s *Server, client *Client, msg *Message, write *bool, begin int) {}
+
+func verifWrapLock(l rwlocker) rwlocker { return l }
